@@ -4,9 +4,12 @@ package main
 // decoder did).  A C08/C07 failure inside one of these classes is reported as `known`; anything
 // else is a violation.
 
-import "strings"
+import (
+	"regexp"
+	"strings"
+)
 
-var predicateNames = []string{"bnpl-subject-semicolon", "comment-cr", "keyword-glue", "pname-bool-prefix"}
+var predicateNames = []string{"bnpl-subject-semicolon", "comment-cr", "keyword-glue", "pname-bool-prefix", "pname-prefix-space"}
 
 // bnpl-subject-semicolon (D42): a document-level triples whose subject is `[ pol ]` (with content)
 // and whose own predicate-object list contains a `;` (two or more pairs, or a written semicolon).
@@ -178,20 +181,65 @@ func predPnameBoolPrefix(d doc) bool {
 	return false
 }
 
-// classesOf lists the known-finding predicates the case falls into.
-func classesOf(d doc, si []slotInfo, ch choices) []string {
+// pname-prefix-space: some prefix label (of a prefixed name or of a @prefix / PREFIX directive)
+// contains U+1680 OGHAM SPACE MARK: it is in PN_CHARS_BASE, but unicode.IsSpace is true for it and the
+// decoder skips it at the start of a token (such documents have docWf = 0).
+func predPnamePrefixSpace(si []slotInfo) bool {
+	for _, s := range si {
+		switch s.kind {
+		case skNs:
+			if strings.ContainsRune(s.text, 0x1680) {
+				return true
+			}
+		case skPName:
+			if i := strings.IndexByte(s.text, ':'); i >= 0 && strings.ContainsRune(s.text[:i], 0x1680) {
+				return true
+			}
+		}
+	}
+	return false
+}
+
+var (
+	textCommentCR = regexp.MustCompile(`#[^\n]*\r([^\n]|$)`)
+	textBnplSemi  = regexp.MustCompile(`\][^;]*;`)
+)
+
+// textClasses: over-approximations of comment-cr and bnpl-subject-semicolon on a text that is not the
+// print of a known document (mutated texts): a `#` followed on the same line by a CR that is not part
+// of CR LF; a `]` with a `;` somewhere behind it.
+func textClasses(text []byte) []string {
 	var out []string
-	if predBnplSubjectSemicolon(si, ch) {
+	if textBnplSemi.Match(text) {
 		out = append(out, "bnpl-subject-semicolon")
 	}
-	if predCommentCR(si, ch) {
+	if textCommentCR.Match(text) {
 		out = append(out, "comment-cr")
 	}
+	if strings.ContainsRune(string(text), 0x1680) {
+		out = append(out, "pname-prefix-space")
+	}
+	return out
+}
+
+// classesOf lists the known-finding predicates the case falls into.
+func classesOf(d doc, si []slotInfo, ch choices) []string {
+	// deviations that are still open first: a failing case is attributed to the first active class
+	var out []string
 	if predKeywordGlue(si, ch) {
 		out = append(out, "keyword-glue")
 	}
 	if predPnameBoolPrefix(d) {
 		out = append(out, "pname-bool-prefix")
+	}
+	if predPnamePrefixSpace(si) {
+		out = append(out, "pname-prefix-space")
+	}
+	if predBnplSubjectSemicolon(si, ch) {
+		out = append(out, "bnpl-subject-semicolon")
+	}
+	if predCommentCR(si, ch) {
+		out = append(out, "comment-cr")
 	}
 	return out
 }
